@@ -42,9 +42,40 @@ pub enum Trace { All, Sparse, None }
 
 pub fn fws(v: &[f64]) -> String { v.iter().map(|x| fw(*x)).collect::<Vec<_>>().join(" ") }
 
+/// an operation that must leave the estimator exactly as it is: clone, clone_from into another state, a serde
+/// round trip (when the state can be written as JSON)
+pub fn identity_op<E: Est>(out: &mut Out, e: &mut E, which: usize) {
+    let before = words(e);
+    let (name, copy): (&str, E) = match which % 3 {
+        0 => ("clone()", e.clone()),
+        1 => { let mut t = E::default(); t.add(1.5); t.clone_from(e); ("clone_from()", t) }
+        _ => match e.roundtrip() { Some(r) => ("a serde round trip", r), None => ("clone()", e.clone()) },
+    };
+    out.x(words(&copy) == before, || format!("{}: {} changed the state: {} -> {}", E::NAME, name, before, words(&copy)));
+    *e = copy;
+}
+
+/// feed the observations without correspondence lines, through one of the ingestion paths (every path builds the
+/// same estimator as the add loop: property C20), interleaved with operations that must not change the state
+pub fn feed_any<E: Est>(out: &mut Out, e: &mut E, xs: &[f64], rng: &mut Rng) {
+    let n = xs.len();
+    let route = rng.below(8);
+    let h = if n > 1 { rng.below(n) } else { 0 };
+    match route {
+        0 | 1 => for x in xs { e.add(*x) },
+        2 => e.extend_val(xs),
+        3 => e.extend_ref(xs),
+        4 => e.extend_lazy(xs, h),
+        5 => { for x in &xs[..h] { e.add(*x) } e.extend_ref(&xs[h..]); }
+        6 => { e.extend_val(&xs[..h]); identity_op(out, e, h); for x in &xs[h..] { e.add(*x) } }
+        _ => { for x in &xs[..h] { e.add(*x) } identity_op(out, e, h + 1); e.extend_lazy(&xs[h..], h + 1); }
+    }
+}
+
 /// add the observations one at a time, emitting `T <ty> add` lines
 pub fn feed<E: Est>(out: &mut Out, e: &mut E, xs: &[f64], trace: Trace, rng: &mut Rng) {
     let n = xs.len();
+    if let Trace::None = trace { if n > 0 && n <= 20_000 { feed_any(out, e, xs, rng); return; } }
     for (i, x) in xs.iter().enumerate() {
         let emit = match trace {
             Trace::All => true,
